@@ -102,7 +102,8 @@ def C02(ctx):
     ctx.run(cases, nontrivial=nt, runtime=True, switches=W_ONLY)
     ctx.rules.append('accepted programs of families R (n<=3, all flavours), B (bindings), S (struct and field providers), M (nested sets over packages), T (variadic injector), '
                      'X (sets declared in one multi-name var spec, injectors returning an argument, several injectors in several files)')
-    more = ctx.export('FamilyR(p, 3)') + ctx.export('FamilyB(p)') + ctx.export('FamilyS(p)') + ctx.export('FamilyM(p, {1, 2, 3})', pre_sample=200 if ctx.quick else 3000)
+    more = ctx.export('FamilyR(p, 3)') + ctx.export('FamilyB(p)') + ctx.export('FamilyS(p)') + ctx.export('FamilyM(p, {1, 2, 3})', pre_sample=200 if ctx.quick else 3000) \
+        + ctx.export('FamilyR2(p, 3)', pre_sample=150 if ctx.quick else None)
     more = [c for c in more if verdict(c) == 'yes']
     if ctx.quick:
         more = ctx.sample(more, 500)
@@ -140,6 +141,12 @@ def C03(ctx):
                      'chains of 12 (quick) / 12 and 25 (thorough) cleanup+error providers (more than ten generated cleanup names) failing at the first, middle and last provider')
     extra = ctx.export('FamilyT(p)') + ctx.export('FamilyChain(p, {12})' if ctx.quick else 'FamilyChain(p, {11, 12, 25})') \
         + ctx.export('FamilyX(p, {"variadic-err-provider"})')
+    ctx.rules.append('family R2: chains whose links are a direct parameter, an interface binding, a wire.Struct pointer or a FieldsOf selection (4^(n-1) link assignments x 4^n flavours; n=3 sampled quick / complete thorough, n=4 sampled thorough): failures and cleanups interleaved with steps that are not provider calls')
+    r2 = ctx.export('FamilyR2(p, 3)', pre_sample=200 if ctx.quick else None)
+    if not ctx.quick:
+        r2 += ctx.export('FamilyR2(p, 4)', pre_sample=1500)
+    ctx.design_inject(r2, maxcalls=2, limit=200 if ctx.quick else 600, label='family R2 ')
+    extra += r2
     ctx.res.cov['fault_points'] += sum(n_fault_points(c) for c in extra)
     ctx.run(extra, nontrivial=lambda c: True, runtime=True, switches=E_C)
     if not ctx.quick:
@@ -160,7 +167,8 @@ def C04(ctx):
     ctx.run(only_success(cases), nontrivial=nt, runtime=True, switches=(False, False, True))
     big = ctx.export('FamilyR(p, 4)', pre_sample=500 if ctx.quick else None)
     ctx.run(only_success(big), nontrivial=nt, runtime=True, switches=(False, False, True))
-    ctx.run(only_success(ctx.export('FamilyChain(p, {12})' if ctx.quick else 'FamilyChain(p, {11, 12, 25})')), nontrivial=nt, runtime=True, switches=(False, False, True))
+    ctx.run(only_success(ctx.export('FamilyChain(p, {12})' if ctx.quick else 'FamilyChain(p, {11, 12, 25})')
+                         + ctx.export('FamilyR2(p, 3)', pre_sample=200 if ctx.quick else None)), nontrivial=nt, runtime=True, switches=(False, False, True))
     if not ctx.quick:
         ctx.run(only_success(ctx.export('FamilyR(p, 5)', pre_sample=3000) + ctx.export('FamilyRBig(p, 6, 200)') + ctx.export('FamilyRBig(p, 7, 200)')),
                 nontrivial=nt, runtime=True, switches=(False, False, True))
